@@ -293,7 +293,7 @@ pub fn run_case(case: &Case, out: &mut WorkerOut) {
             // readable afterwards
             let db = h.db().clone();
             let first = cand_first_id(&case.cand, 10 + attempt * 100);
-            match h.rt.block_on(async move { tokio::time::timeout(Duration::from_secs(5), db.read_transaction(partition_of(0), first)).await }) {
+            match h.rt.block_on(async move { tokio::time::timeout(Duration::from_secs(40), db.read_transaction(partition_of(0), first)).await }) {
                 Ok(Ok(Some(ce))) if ce.len() == case.cand.n() => {}
                 other => {
                     out.violation(
